@@ -73,7 +73,11 @@ double Random(void)
 double Normal(void)
 {
 	double v1, v2, rsq;
+#ifdef ROOT_SIM_CORE_VERIF
+	do VERIF_LOOP(Normal_reject) {
+#else
 	do {
+#endif
 		v1 = 2.0 * Random() - 1.0;
 		v2 = 2.0 * Random() - 1.0;
 		rsq = v1 * v1 + v2 * v2;
@@ -107,6 +111,7 @@ double Gamma(unsigned ia)
 		// Use direct method, adding waiting times
 		double x = 1.0;
 		while(ia--)
+		VERIF_LOOP(Gamma_direct)
 			x *= 1 - Random();
 		return -log(x);
 	}
@@ -114,9 +119,17 @@ double Gamma(unsigned ia)
 	double x, y, s;
 	double am = ia - 1;
 	// Use rejection method
+#ifdef ROOT_SIM_CORE_VERIF
+	do VERIF_LOOP(Gamma_outer) {
+#else
 	do {
+#endif
 		double v1, v2;
+#ifdef ROOT_SIM_CORE_VERIF
+		do VERIF_LOOP(Gamma_inner) {
+#else
 		do {
+#endif
 			v1 = Random();
 			v2 = 2.0 * Random() - 1.0;
 		} while(v1 * v1 + v2 * v2 > 1.0);
@@ -153,7 +166,11 @@ unsigned Zipf(double skew, unsigned limit)
 {
 	double b = pow(2., skew - 1.);
 	double x, t;
+#ifdef ROOT_SIM_CORE_VERIF
+	do VERIF_LOOP(Zipf_reject) {
+#else
 	do {
+#endif
 		x = floor(pow(Random(), -1. / skew - 1.));
 		t = pow(1. + 1. / x, skew - 1.);
 	} while(x > limit || Random() * x * (t - 1.) * b > t * (b - 1.));
